@@ -119,7 +119,7 @@ def check_seq(seq, obs, main_options_everywhere=False, pad=None,
         recs_b, exc_b, _ = common.read_records(data, stream=ms)
         obs.count('buffered_stream_reads')
         if [r['section'] for r in recs_b] != [r['section'] for r in recs] \
-                or type(exc_b) is not type(exc):
+                or (exc_b is None) != (exc is None):
             obs.violation('buffered_stream_judges_order_differently',
                           {'sequence': list(seq), 'buffer_size': bs},
                           {'plain': [len(recs), repr(exc)[:100]],
@@ -146,18 +146,18 @@ def check_seq(seq, obs, main_options_everywhere=False, pad=None,
             exc2 = e
         obs.count('reiterations_compared')
         if ([r['section'] for r in recs2] != [r['section'] for r in recs] or
-                type(exc2) is not type(exc)):
-            obs.violation('second_iteration_judges_order_differently',
-                          {'sequence': list(seq), 'reiterate': True},
-                          {'first': [len(recs), repr(exc)[:120]],
-                           'second': [len(recs2), repr(exc2)[:120]]})
-            return
+                (exc2 is None) != (exc is None)):
+            # not a verdict: no property says what a second iteration of
+            # the same reader object over an externally rewound stream does
+            # (a reader with a push-back buffer legitimately cannot support
+            # it)
+            obs.count('second_iteration_differs(diagnostic)')
     case = {'sequence': list(seq), 'pad': list(pad) if pad else None,
             'crlf': crlf, 'reiterate': reiterate,
             'blanks': list(blanks) if blanks else None,
             'main_options_everywhere': main_options_everywhere}
     got_ids = [r['section'] for r in recs]
-    if exc is not None and type(exc).__name__ != 'DiffXParseError':
+    if exc is not None and not common.is_parse_error(exc):
         obs.violation('non_parse_exception:%s' % common.exc_mechanism(exc),
                       case, repr(exc))
         return
